@@ -17,7 +17,7 @@ import (
 // deletes the stored session, the resulting delete event makes Broker.deleteSession drop the NEW
 // c0 from Broker.clients without closing its socket, and two fresh ids c1, c2 are then accepted as well.
 func TestVerifReproC17MqttTakeover(t *testing.T) {
-	r := &vfC17MRig{cap: 2, held: map[string]*vfC17Cli{}, tookOver: map[string]bool{}, reconnected: map[string]bool{},
+	r := &vfC17MRig{cap: 2, held: map[string]*vfC17Cli{}, tookOver: map[string]bool{}, takingOver: map[string]bool{}, reconnected: map[string]bool{},
 		closedOnce: map[string]bool{}, cleanOf: map[string]bool{}}
 	r.cond = sync.NewCond(&r.mu)
 	spec := &Spec{Name: "vfc17", EGName: "vfc17", Port: 0, MaxAllowedConnection: 2}
